@@ -150,6 +150,14 @@ where
         // build. They must not leak into the next file built with the same
         // environment.
         self.environment.borrow_mut().out_lock.clear();
+        // Every top level file gets its own assertion results.
+        self.environment.borrow_mut().assert_results = AssertCollector::new();
+        if self.validate_mode {
+            // Assertions in imported files are recorded when the import is
+            // evaluated. Drop the cached import values so that each test file
+            // records them itself instead of depending on what ran before it.
+            self.environment.borrow_mut().val_cache.clear();
+        }
         let ptr = self.environment.borrow_mut().get_ops_for_path(&file)?;
         let eval_result = self.eval_ops(ptr, Some(file.clone()));
         match eval_result {
